@@ -10,6 +10,8 @@
  *         ldb_tablegen_*, read with ldb_table_* (iteration both ways, seek to
  *         every key and gap, internal_get), and decoded from the file bytes
  *         by the independent reference reader (ref_table_read)
+ *   raw   tables over USER keys (incl. the empty key), values 0..70 000 bytes: every subset of 6 keys
+ *         x 5 value-size rotations x 48 configurations
  *   wit   20 000-entry witness tables (mmap 0|1 x none|snappy), every entry sought and looked up
  *   sep   shortest_separator / short_successor contract on all strings of
  *         length <= 3 over {00,01,61,FE,FF}: bytewise and internal-key wrapper
@@ -531,6 +533,7 @@ done:
   return bad;
 }
 
+static void hexs(const uint8_t *p, size_t n, char *buf, size_t bn);
 static int n_tsamples;
 
 static void
@@ -586,6 +589,234 @@ table_domain(void) {
       }
     }
   }
+}
+
+/* ------------------------------------------------------------------ */
+/* raw-key tables: the table layer used directly with USER keys        */
+/* (bytewise comparator, filter policy over the whole key), including  */
+/* the empty key, and values from 0 bytes to 70 000 bytes so that one  */
+/* entry can span many 2 KiB filter ranges                             */
+/* ------------------------------------------------------------------ */
+
+#define RNU 6
+#define RNV 5
+#define RNCFG 48
+static const struct { const char *k; size_t n; } RK[RNU] = {
+    {"", 0}, {"\x00", 1}, {"a", 1}, {"abdxxxxxxxxxxxxxxxxxxxxxxxxxxxxxxy", 34},
+    {"a\xff\xff\xff\xff\xff\xff\xff\xff\xff", 10}, {"\xff\xff", 2}};   /* in bytewise order (checked in raw_init) */
+static const struct { const char *k; size_t n; } RABS[5] = {{"\x00\x00", 2}, {"0", 1}, {"a\xff", 2}, {"b", 1}, {"\xff\xff\xff", 3}};
+static const size_t rvsize[RNV] = {0, 10, 300, 3000, 70000};
+static uint8_t *rval[RNU];
+static uint64_t n_raw_tables, n_raw_gets, n_raw_big_single_blocks;
+
+typedef struct rawget_s { const ent_t *want; int calls, right; } rawget_t;
+
+static void
+rawget_cb(void *arg, const ldb_slice_t *k, const ldb_slice_t *v) {
+  rawget_t *c = arg;
+  c->calls++;
+  if (c->want && same(k->data, k->size, c->want->k, c->want->kn) && same(v->data, v->size, c->want->v, c->want->vn))
+    c->right = 1;
+}
+
+static void
+raw_cfg(int c, cfg_t *g) {
+  static const int bss[3] = {64, 1024, 4096}, ris[2] = {1, 16};
+  memset(g, 0, sizeof(*g));
+  g->bs = bss[c % 3]; c /= 3;
+  g->ri = ris[c % 2]; c /= 2;
+  g->snappy = c % 2; c /= 2;
+  g->filter = c % 2; c /= 2;   /* 0 = none, 1 = bloom 10 over the whole key */
+  g->mm = c % 2;
+}
+
+static int
+run_raw(int cfgi, unsigned mask, int pat, fail_t *f) {
+  cfg_t g;
+  ldb_dbopt_t opt;
+  ldb_readopt_t ropt = *ldb_readopt_default;
+  ent_t E[RNU];
+  int n = 0, i, t, rc, rc2, bad = 0;
+  ldb_wfile_t *wf = NULL;
+  ldb_tablegen_t *tb;
+  ldb_rfile_t *rf = NULL;
+  ldb_table_t *tbl = NULL;
+  ldb_iter_t *it;
+  const vinode_t *node;
+  uint64_t size;
+  char ct[200], hk[100];
+
+  raw_cfg(cfgi, &g);
+  cfg_text(&g, ct, sizeof(ct));
+  opt = *ldb_dbopt_default;
+  opt.comparator = ldb_bytewise_comparator;
+  opt.block_size = (size_t)g.bs;
+  opt.block_restart_interval = g.ri;
+  opt.compression = g.snappy ? LDB_SNAPPY_COMPRESSION : LDB_NO_COMPRESSION;
+  opt.filter_policy = g.filter ? blooms[1] : NULL;
+  opt.use_mmap = g.mm;
+  opt.block_cache = NULL;
+  opt.paranoid_checks = 1;
+  ropt.verify_checksums = 1;
+  for (i = 0; i < RNU; i++) {       /* RK is in bytewise order */
+    if (!((mask >> i) & 1u))
+      continue;
+    E[n].k = (const uint8_t *)RK[i].k;
+    E[n].kn = RK[i].n;
+    E[n].v = rval[i];
+    E[n].vn = rvsize[(i + pat) % RNV];
+    n++;
+  }
+  if (!rt_ready) {
+    ref_table_init(&rt);
+    rt_ready = 1;
+  }
+  tv_get();
+  rc = ldb_truncfile_create(TPATH, &wf);
+  if (rc != LDB_OK)
+    vh_die("create table file: %d", rc);
+  tb = ldb_tablegen_create(&opt, wf);
+  for (i = 0; i < n; i++) {
+    ldb_slice_t k = ldb_slice(E[i].k, E[i].kn), v = ldb_slice(E[i].v, E[i].vn);
+    ldb_tablegen_add(tb, &k, &v);
+  }
+  rc = ldb_tablegen_finish(tb);
+  size = ldb_tablegen_size(tb);
+  ldb_tablegen_destroy(tb);
+  rc2 = ldb_wfile_close(wf);
+  ldb_wfile_destroy(wf);
+  if (rc != LDB_OK || rc2 != LDB_OK)
+    FAIL(f, "build_status", "raw keys, %s mask=0x%02x pat=%d: finish=%d close=%d", ct, mask, pat, rc, rc2);
+  node = vfs_inode(tv, vfs_lookup(tv, TPATH));
+  if (!node)
+    vh_die("table file vanished");
+  if (node->len != size)
+    FAIL(f, "build_size", "raw keys, %s mask=0x%02x pat=%d: builder reports %llu bytes, file has %zu", ct, mask, pat,
+         (unsigned long long)size, node->len);
+  /* independent decode incl. the filter probe of every present key against its block's filter */
+  if (ref_table_read(node->data, node->len, g.filter ? BLOOM_NAME : NULL, 0, g.ri, &rt) != 0)
+    FAIL(f, "ref_format", "raw keys, %s mask=0x%02x pat=%d: reference table reader rejects the file: %s", ct, mask, pat, rt.err);
+  if (rt.n != (size_t)n)
+    FAIL(f, "ref_entries", "raw keys, %s mask=0x%02x pat=%d: reference reader decoded %zu entries, %d were added", ct, mask, pat, rt.n, n);
+  for (i = 0; i < n; i++)
+    if (!same(rt.pool.p + rt.e[i].koff, rt.e[i].klen, E[i].k, E[i].kn) ||
+        !same(rt.pool.p + rt.e[i].voff, rt.e[i].vlen, E[i].v, E[i].vn))
+      FAIL(f, "ref_entries", "raw keys, %s mask=0x%02x pat=%d: entry %d decoded by the reference reader differs from what was added", ct, mask, pat, i);
+  for (i = 0; i < (int)rt.nblk; i++)
+    if (rt.blk[i].count == 1 && rt.e[rt.blk[i].first].vlen >= 2048)
+      n_raw_big_single_blocks++;
+  n_ref_entries += rt.n;
+  n_filter_probes += rt.filter_probes;
+  n_blocks += rt.nblk;
+
+  rc = ldb_randfile_create(TPATH, &rf, g.mm);
+  if (rc != LDB_OK)
+    vh_die("open table file: %d", rc);
+  rc = ldb_table_open(&opt, rf, size, &tbl);
+  if (rc != LDB_OK) {
+    ldb_rfile_destroy(rf);
+    FAIL(f, "open_status", "raw keys, %s mask=0x%02x pat=%d: ldb_table_open returned %d", ct, mask, pat, rc);
+  }
+  it = ldb_tableiter_create(tbl, &ropt);
+  ldb_iter_first(it);
+  for (i = 0; i <= n; i++) {
+    if (!at_pos(it, E, n, i))
+      TFAIL("iter_forward", "raw keys, %s mask=0x%02x pat=%d: forward iteration wrong at position %d of %d", ct, mask, pat, i, n);
+    if (i < n)
+      ldb_iter_next(it);
+    n_iter_steps++;
+  }
+  ldb_iter_last(it);
+  for (i = n - 1; i >= -1; i--) {
+    if (!at_pos(it, E, n, i))
+      TFAIL("iter_backward", "raw keys, %s mask=0x%02x pat=%d: backward iteration wrong at position %d of %d", ct, mask, pat, i, n);
+    if (i >= 0)
+      ldb_iter_prev(it);
+    n_iter_steps++;
+  }
+  for (t = 0; t < RNU + 5; t++) {
+    const uint8_t *tk = (const uint8_t *)(t < RNU ? RK[t].k : RABS[t - RNU].k);
+    size_t tn = t < RNU ? RK[t].n : RABS[t - RNU].n;
+    ldb_slice_t ts = ldb_slice(tk, tn);
+    rawget_t gc;
+    int lb = 0, present;
+    while (lb < n && my_ucmp(0, E[lb].k, E[lb].kn, tk, tn) < 0)
+      lb++;
+    present = lb < n && same(E[lb].k, E[lb].kn, tk, tn);
+    hexs(tk, tn, hk, sizeof(hk));
+    ldb_iter_seek(it, &ts);
+    n_seeks++;
+    if (!at_pos(it, E, n, lb))
+      TFAIL("seek", "raw keys, %s mask=0x%02x pat=%d: seek(%s) did not land on entry %d of %d", ct, mask, pat, hk, lb, n);
+    memset(&gc, 0, sizeof(gc));
+    gc.want = lb < n ? &E[lb] : NULL;
+    rc = ldb_table_internal_get(tbl, &ropt, &ts, &gc, rawget_cb);
+    n_gets++;
+    n_raw_gets++;
+    if (rc != LDB_OK)
+      TFAIL("get_status", "raw keys, %s mask=0x%02x pat=%d: internal_get(%s) returned %d", ct, mask, pat, hk, rc);
+    if (gc.calls > 1 || (gc.calls == 1 && !gc.right))
+      TFAIL("get_wrong_entry", "raw keys, %s mask=0x%02x pat=%d: internal_get(%s) reported %s", ct, mask, pat, hk,
+            gc.calls > 1 ? "more than one entry" : "an entry other than the first one at or after the target");
+    if (present && gc.calls != 1)
+      TFAIL("get_missed_present_key", "raw keys, %s mask=0x%02x pat=%d: internal_get(%s) reported nothing although the key is present (entry %d, %zu-byte value)",
+            ct, mask, pat, hk, lb, E[lb].vn);
+    if (present)
+      n_gets_found++;
+  }
+  if (ldb_iter_status(it) != LDB_OK)
+    TFAIL("iter_status", "raw keys, %s mask=0x%02x pat=%d: iterator status %d", ct, mask, pat, ldb_iter_status(it));
+done:
+  ldb_iter_destroy(it);
+  ldb_table_destroy(tbl);
+  ldb_rfile_destroy(rf);
+  return bad;
+}
+
+static void
+raw_init(void) {
+  int i;
+  size_t j;
+  uint32_t x = 4242;
+  for (i = 1; i < RNU; i++)
+    if (my_ucmp(0, (const uint8_t *)RK[i - 1].k, RK[i - 1].n, (const uint8_t *)RK[i].k, RK[i].n) >= 0)
+      vh_die("raw key universe not in order");
+  for (i = 0; i < RNU; i++) {
+    rval[i] = malloc(70000);
+    for (j = 0; j < 70000; j++) {
+      x = x * 1103515245u + 12345u;
+      rval[i][j] = (i & 1) ? (uint8_t)(x >> 16) : (uint8_t)('a' + ((j / 7 + (size_t)i) % 3));
+    }
+  }
+}
+
+static void
+raw_domain(void) {
+  int c, pat;
+  unsigned mask;
+  for (c = 0; c < RNCFG && !stopped; c++)
+    for (pat = 0; pat < RNV && !stopped; pat++)
+      for (mask = 1; mask < (1u << RNU); mask++) {
+        uint64_t idx = g_idx++;
+        fail_t f, f2;
+        char js[120];
+        if (!drv_mine(idx))
+          continue;
+        snprintf(js, sizeof(js), "{\"k\":\"raw\",\"cfg\":%d,\"mask\":%u,\"pat\":%d}", c, mask, pat);
+        drv_case("%s", js);
+        n_eval++;
+        n_tables++;
+        n_raw_tables++;
+        if (run_raw(c, mask, pat, &f)) {
+          if (!run_raw(c, mask, pat, &f2))
+            vh_die("violation did not reproduce: %s", js);
+          drv_viol(f.sig, f.detail, js);
+        }
+        if ((n_raw_tables & 63) == 0 && drv_deadline_hit()) {
+          stopped = 1;
+          break;
+        }
+      }
 }
 
 /* ------------------------------------------------------------------ */
@@ -1176,6 +1407,12 @@ replay(const char *js) {
     if (c < 0 || c >= NCFG || m > 2047 || (m & 1023u) == 0)
       vh_die("bad replay payload: %s", js);
     bad = run_table(c, m, &f, NULL);
+  } else if (strstr(js, "\"k\":\"raw\"")) {
+    int c = (int)jnum(js, "cfg", 0), pat = (int)jnum(js, "pat", 0);
+    unsigned m = (unsigned)jnum(js, "mask", 1);
+    if (c < 0 || c >= RNCFG || m == 0 || m >= (1u << RNU) || pat < 0 || pat >= RNV)
+      vh_die("bad replay payload: %s", js);
+    bad = run_raw(c, m, pat, &f);
   } else if (strstr(js, "\"k\":\"wit\"")) {
     bad = run_witness((int)jnum(js, "variant", 1) & 3, &f);
   } else if (strstr(js, "\"k\":\"sep\"") && strstr(js, "\"b\":")) {
@@ -1247,6 +1484,7 @@ main(int argc, char **argv) {
     }
   }
   the_cache = ldb_lru_create(8 << 20);
+  raw_init();
   sn_in = malloc(SN_MAX + 64);
   sn_out = malloc(SN_MAX + SN_MAX / 6 + 128);
   sn_dec = malloc(SN_MAX + 64);
@@ -1272,7 +1510,9 @@ main(int argc, char **argv) {
                "<=12 over {a,b,c}");
     drv_note("%d seek/lookup targets per table: the 10 universe keys, (user key, max seq) and (user key, seq 0) of every "
              "present user key, two in-between versions of 'a', and 7 absent user keys at two sequence numbers", ntg);
+    drv_note("raw = tables over user keys (bytewise comparator, bloom over the whole key): every non-empty subset of 6 keys incl. the empty key x 5 value-size rotations over {0,10,300,3000,70000} bytes x 48 configurations");
     sep_domain();
+    if (!stopped) raw_domain();
     if (!stopped) witness_domain();
     if (!stopped) snappy_domain();
     if (!stopped) table_domain();
@@ -1284,14 +1524,15 @@ main(int argc, char **argv) {
            "\"lookups_nothing_reported_without_filter\":%llu,\"lookups_reported_next_user_key\":%llu,"
            "\"ref_decoded_entries\":%llu,\"ref_filter_probes\":%llu,\"data_blocks\":%llu,\"tables_with_snappy_blocks\":%llu,"
            "\"separator_pairs\":%llu,\"separators_shortened\":%llu,\"successor_cases\":%llu,\"snappy_strings\":%llu,"
-           "\"snappy_input_bytes\":%llu",
+           "\"snappy_input_bytes\":%llu,\"raw_key_tables\":%llu,\"raw_key_lookups\":%llu,\"raw_single_entry_blocks_over_2k\":%llu",
            (unsigned long long)n_eval, (stopped || drv.replay) ? "false" : "true", (unsigned long long)n_tables,
            (unsigned long long)n_witness, (unsigned long long)n_seeks, (unsigned long long)n_iter_steps,
            (unsigned long long)n_gets, (unsigned long long)n_gets_found, (unsigned long long)n_gets_nocb_filter,
            (unsigned long long)n_gets_nocb_nofilter, (unsigned long long)n_gets_other, (unsigned long long)n_ref_entries,
            (unsigned long long)n_filter_probes, (unsigned long long)n_blocks, (unsigned long long)n_compressed_tables,
            (unsigned long long)n_sep_pairs, (unsigned long long)n_sep_shortened, (unsigned long long)n_succ,
-           (unsigned long long)n_snappy, (unsigned long long)n_snappy_bytes);
+           (unsigned long long)n_snappy, (unsigned long long)n_snappy_bytes, (unsigned long long)n_raw_tables,
+           (unsigned long long)n_raw_gets, (unsigned long long)n_raw_big_single_blocks);
   drv_result(res);
   return 0;
 }
